@@ -30,6 +30,14 @@ CLAIMS = {
    text="39 expansion equations, proved about the syntax table computed inside Coq from the CURRENT text of src/parser/grammar.sld (regenerated every run): for begin, let, let*, cond (else, =>, test-only), case (else, =>, compound key), and, or, when, unless and arbitrary sub-forms of any shape, the transformer yields exactly the R7RS derived-form expansion (e.g. (and e1 e2) = (if e1 (and e2) #f); (let ((x v) (y w)) b1 b2) = ((lambda (x y) b1 b2) v w); let* nests left to right; cond/case select the first clause, => receives the test value / key which is evaluated once). The equations mention neither pattern-variable names nor layout, so harmless edits re-prove; a semantic edit breaks a proof and the check then searches for a failing input with the model running the pinned reference sources. Meaning of the expansions: C01. Tied to the code by all pairs of derived forms nested in every position and random nested programs with ticking sub-forms (order and multiplicity of evaluation observed), plus scope probes (closures created in binding positions).",
    note="closed under the global context; equations are for the listed clause shapes, not for arbitrary numbers of clauses; hygiene hypotheses explicit (known finding F1), an ellipsis needs one item (F2), top-level begin does not splice (F8) - each printed as KNOWN-FINDING with its witness",
    technique="Coq proof by computation on the translated grammar.sld (source regenerated each run) + differential correspondence with tick traces; reference-mode search when a proof breaks"),
+ "C06": dict(
+   text="Theorems about the lexer model: a non-empty run of white space (blank, tab, CR, LF in any number) and a comment before a token are skipped - the token sequence does not depend on the layout; parentheses and the quote mark are tokens by themselves whatever follows; an identifier token (initial, subsequent characters) ends exactly at the next delimiter or the end of input and denotes exactly those characters; the lexer is total (for every text: a token, the end, or a reported error - never a panic or a timeout). Tied to lexer.rs / parser.rs by (a) EVERY string up to length 3 (quick) / 4 (thorough) over the 16-character alphabet ( ) ' # . + - 1 a e / \" ; \\ space newline plus seeded longer samples: token sequences with locations, and data read through the reader hook; (b) random datum trees (all supported token classes, lists, dotted tails, vectors, quote) rendered under random admissible layouts, read back and compared with the tree by an independent oracle.",
+   note="closed under the global context; PARTIAL: the per-class scanning lemmas for numbers, strings and characters and the reader's read_render theorem are not proved (covered by the exhaustive short-string comparison and the tree round trip); #t/#f/#\\c need no following delimiter (pinned test depends on it), sign-dot identifiers like +.+ are rejected by the lexer - outside the supported grammar",
+   technique="Coq proof (lexer lemmas by structural recursion, totality by induction on length) + exhaustive short-string and random tree/layout correspondence"),
+ "C07": dict(
+   text="Theorems: the lexer is total (no panic site, never out of fuel); the argument count is tested before any procedure body runs, at every application (first statement of the trampoline loop); hence binding the parameters (arg_iter.next().unwrap()) cannot fail and no native procedure can miss an argument - proved for every entry of the builtin table (the ~40 iter.next().unwrap() of base.rs/write.rs). Every other Rust panic site is an explicit Panic outcome of the whole-pipeline model, which is executed against the implementation on: every string up to length 2/3 over a 20-character alphabet (+ sampled longer), token soup over keywords/builtins/boundary literals with balanced and unbalanced parentheses, token-level mutations of valid programs and of the bundled library sources, random Unicode/control characters, every builtin on tuples of boundary values, a list of malformed special forms, and unreadable (non-UTF-8, directory, missing) program and library files - each followed by (+ 1 2) on the same interpreter. Any panic/abort of the implementation or a failing sanity form is a violation.",
+   note=COMMON_NOTE + "; PARTIAL: totality of reader, transformer and evaluator as a whole (wf_ast => no Panic) is not proved; RefCell borrow conflicts are outside the model (one such panic was found by a sub-agent and repaired: fix 12a90b2); deep nesting, non-termination and memory exhaustion are outside the claim",
+   technique="Coq proof (lexer totality; unreachability of the argument-unwrap panic sites, table-wide) + fuzzing correspondence of outcome classes on the whole pipeline"),
  "C08": dict(
    text="Theorems: the evaluator reports an error, with the state in which it was raised, only where the context-free big-step rules raise it (soundness, all calling contexts at once because the rules have no notion of context: direct call, tail call through the trampoline, apply, calls from library closures); every application checks the argument count (on the rules, and directly on the trampoline); a call yields a value only if its operator evaluated to a procedure, a reference/assignment only if the variable is bound; along any evaluation, failing or not, no frame and no vector disappears (effects are kept, nothing is rolled back). Tied to the code by valid random programs with one injected fault: 8 fault kinds x 5 calling contexts x position, with an effect completed before the fault and forms reading the state afterwards; kinds compared model vs implementation and against the kind the fault calls for.",
    note=COMMON_NOTE + "; single-fault programs; error locations are C15's subject and are not compared here",
